@@ -483,4 +483,6 @@ def run(ck, tier):
     from .. import ownership as _own2
     ck.rule('R6', 'no unsound memoisation (a caching decorator on a method, or on a function that returns a mutable container) in the modules this property rests on')
     ck.guard(_own2.rule_no_unsafe_memo, ck, cx, 'R6', ('pymodbus.payload',), 'the image built or decoded is the one cached for other values')
+    from .c02 import r6_bit_helpers_fresh
+    ck.guard(r6_bit_helpers_fresh, ck, cx, 'R7')
     return cx.idx
